@@ -38,3 +38,11 @@ func simSched() (uint64, uint64)
 // SchedDigest: rolling hash of the scheduling decisions since the last reset,
 // and their number.
 func SchedDigest() (uint64, uint64) { return simSched() }
+
+// rtNanotime is the machine's monotonic clock. time.Now and time.Since are
+// simulated inside a bubble; the per-plan wall budget (Run.WallOver) needs the
+// real one and reads it without a goroutine or a timer of its own, so that it
+// takes no part in the schedule.
+//
+//go:linkname rtNanotime runtime.nanotime
+func rtNanotime() int64
